@@ -225,7 +225,7 @@ Qed.
 Lemma step_probe : forall s tm a t ok prev new s', step s (mkEv tm a (KProbeApply t ok prev new)) = Some s' ->
   exists x x', nget (tgts s) t = Some x /\ new = probe_next (t_st x) ok /\ nget (tgts s') t = Some x' /\ t_st x' = new.
 Proof.
-  intros s tm a t ok prev new s' H. step_inv H; proj_simp; rewrite nget_nset_same;
+  intros s tm a t ok prev new s' H. step_inv H; proj_simp; rewrite nget_nset_same; split_ands;
   do 2 eexists; repeat split; try reflexivity; now apply tstate_eqb_eq.
 Qed.
 
